@@ -4,7 +4,7 @@
    proved are the per-step reactions; that they compose over traces is checked by the correspondence stream, and the
    wall-clock spacing of the timers (the real run loop) is outside the model. *)
 From Coq Require Import ZArith List Bool.
-From QF Require Import Base.Bytes Session.Types Session.Model Session.Spec Session.LocalProofs Session.FrameProofs Session.TraceProofs Session.KeepAliveProofs.
+From QF Require Import Base.Bytes Session.Types Session.Model Session.Spec Session.LocalProofs Session.FrameProofs Session.TraceProofs Session.KeepAliveProofs Session.LogonProofs.
 Import ListNotations.
 Open Scope Z_scope.
 
@@ -87,3 +87,29 @@ Proof. exact c20_echo_never_fails. Qed.
 Theorem c20_dead_peer_holds_on_every_trace : forall c es,
   free_of [2004] (c20_check c (combine es (map obs_of (run_trace es (init_sess c))))) = true.
 Proof. exact c20_dead_peer_never_fails. Qed.
+
+(* An acceptor uses the interval announced in the peer's Logon unless configured to override it.
+   STEP: from ANY state in the logon state with nothing buffered inbound (no reachability assumption needed), for every
+   message m: if the session is an acceptor without HeartBtIntOverride, m announces HeartBtInt h, and processing m calls
+   OnLogon (which only handleLogon's success path does — closure `Quiet` in Session/LogonProofs.v), then the session's
+   interval after the event is h. *)
+Theorem c20_acceptor_adopts_heartbtint_step : forall s m h,
+  s_st s = SLogon -> s_in_buf s = [] -> initiator s = false -> c_hb_override (s_cfg s) = false -> mi_hbint m = FVal h ->
+  In CbOnLogon (s_cbs (step s (EIncoming m))) -> s_hb (step s (EIncoming m)) = h.
+Proof. exact step_logon_adopts_hb. Qed.
+
+(* TRACE LEVEL: clause 2006 of c20_check never fails on the model's trace, for every configuration and every event list. *)
+Theorem c20_acceptor_adopts_heartbtint_on_every_trace : forall c es,
+  free_of [2006] (c20_check c (combine es (map obs_of (run_trace es (init_sess c))))) = true.
+Proof. exact c20_adopt_never_fails. Qed.
+
+(* non-vacuity: an acceptor configured with 30 s accepts a Logon (number 1, 141=Y) announcing 7 s; in the second event the
+   guard of the clause holds (logon state before, OnLogon called) and the interval is 7 afterwards *)
+Example c20_adopt_example :
+  let es := [EConnect; EIncoming (lgp_logon 1 7)] in
+  existsb reset_logon_ahead es = false /\
+  map (fun o => (ob_st o, ob_hb o, ob_snd o, ob_tgt o, existsb (fun x => match x with CbOnLogon => true | _ => false end) (ob_cbs o),
+                 map (fun w => (o_type w, o_seq w, field_of 141 (o_body w))) (ob_wire o)))
+      (map obs_of (run_trace es (init_sess lgp_cfg)))
+  = [(ShLogon, 30, 1, 1, false, []); (ShInSession, 7, 2, 2, true, [(T_LOGON, 1, Some lgp_Y)])].
+Proof. exact lgp_accept_example. Qed.
